@@ -279,8 +279,9 @@ pub fn judge_session(sc: &Scenario, res: &SimResult, tr: &Trace, j: Judge, acc: 
                     }
                     let first_late = t_first.saturating_sub(t_go + plan_ns);
                     let first_budget = sc.c_node_ns * FIRST_MOVE_NODE_BUDGET + search_injected + io_injected + 2 * MS;
-                    if j.c08 && !terminal && first_late > first_budget {
-                        v("C08", "C08/first-move-too-late".into(), format!("first move {}us after the deadline (budget {}us) for {} in {}", first_late / 1000, first_budget / 1000, c.raw.trim(), p.fen()), acc);
+                    if (j.c08 || j.c09) && !terminal && first_late > first_budget {
+                        let prop = if j.c08 { "C08" } else { "C09" };
+                        v(prop, format!("{}/first-move-too-late", prop), format!("first move {}us after the deadline (budget {}us), so the answer came that long after the planned {}ms, for {} in {}", first_late / 1000, first_budget / 1000, plan, c.raw.trim(), p.fen()), acc);
                     }
                     if j.c09 && !terminal {
                         let elapsed = bm.t - t_go;
